@@ -297,6 +297,42 @@ class _PassHead(ast.NodeTransformer):
         return node
 
 
+class _Hoist(ast.NodeTransformer):
+    """`if a <op> EXPR:` -> `_h1 = EXPR` followed by `if a <op> _h1:` for non-trivial EXPR of plain (non-elif) if statements."""
+
+    def __init__(self):
+        self.n = 0
+
+    def _hoist_block(self, body):
+        out = []
+        for s in body:
+            s = self.visit(s)
+            if isinstance(s, ast.If) and isinstance(s.test, ast.Compare) and len(s.test.ops) == 1 \
+                    and isinstance(s.test.comparators[0], (ast.BinOp, ast.Call, ast.Subscript)) \
+                    and not any(isinstance(x, (ast.Yield, ast.Await, ast.NamedExpr)) for x in ast.walk(s.test)):
+                self.n += 1
+                name = f"_h{self.n}"
+                out.append(ast.copy_location(ast.Assign(targets=[ast.Name(id=name, ctx=ast.Store())], value=s.test.comparators[0]), s))
+                s.test.comparators[0] = ast.Name(id=name, ctx=ast.Load())
+            out.append(s)
+        return out
+
+    def generic_visit(self, node):
+        for fld in ("body", "orelse", "finalbody"):
+            b = getattr(node, fld, None)
+            if isinstance(b, list) and b and isinstance(b[0], ast.stmt):
+                if fld == "orelse" and len(b) == 1 and isinstance(b[0], ast.If) and isinstance(node, ast.If):
+                    self.generic_visit(b[0])       # elif: descend without hoisting in front of it
+                    continue
+                setattr(node, fld, self._hoist_block(b))
+        return node
+
+    def visit(self, node):
+        if isinstance(node, ast.stmt):
+            return self.generic_visit(node)
+        return node
+
+
 def rewrite_function(program: Program, qualname: str, kind: str) -> Program | None:
     fi = program.functions.get(qualname)
     if fi is None:
@@ -315,6 +351,11 @@ def rewrite_function(program: Program, qualname: str, kind: str) -> Program | No
         _AugToAssign().visit(target)
     elif kind == "pass":
         _PassHead().visit(target)
+    elif kind == "hoist":
+        h = _Hoist()
+        h.generic_visit(target)
+        if h.n == 0:
+            return None
     ast.fix_missing_locations(tree)
     return program.with_source(fi.file, ast.unparse(tree))
 
@@ -379,7 +420,7 @@ def run(ctx: Ctx) -> None:
         expect[mid] = rules
         jobs.append(("mutant", prop, mid, path, old, new))
     for q in ANCHORS.get(prop, []):
-        for kind in ("rename", "aug", "pass"):
+        for kind in ("rename", "aug", "pass", "hoist"):
             jobs.append(("rewrite", prop, q, kind))
     _BASE = ctx.p
     nproc = max(1, min(16, os.cpu_count() or 1, len(jobs)))
